@@ -238,10 +238,14 @@ End RunPred.
 
 Ltac Zify.zify_post_hook ::= Z.div_mod_to_equations.
 
-Definition cfg_ok (c : cfg) : Prop :=
-  0 < cf_w c /\ 0 < cf_h c /\ 0 <= cf_bpp c /\ 0 <= cf_wait c.
-
 Definition fb_bytes (c : cfg) : Z := pad4 (cf_w c * (cf_bpp c / 8)) * cf_h c.
+
+(* the configurations the model is claimed for: a screen the protocol can describe (16-bit dimensions),
+   one of the two server depths the correspondence run compares (8 and 32 bits per pixel; 16 is run under
+   the sanitizers only), a frame buffer whose size fits the C int sizeInBytes *)
+Definition cfg_ok (c : cfg) : Prop :=
+  0 < cf_w c /\ 0 < cf_h c /\ 0 <= cf_bpp c /\ 0 <= cf_wait c /\
+  cf_w c <= 65535 /\ cf_h c <= 65535 /\ (cf_bpp c = 8 \/ cf_bpp c = 32) /\ fb_bytes c <= c04_int_max.
 
 (* the largest allocation one message may cause *)
 Definition msg_bound (c : cfg) : Z :=
@@ -288,6 +292,23 @@ Proof.
   nia.
 Qed.
 
+Lemma be_acc_nonneg : forall l a, 0 <= a -> bytes_ok l -> 0 <= be_acc a l.
+Proof. induction l as [|b r IH]; intros a Ha Hl; cbn; auto. inversion Hl; subst. apply IH; auto. nia. Qed.
+Lemma be_nonneg : forall l, bytes_ok l -> 0 <= be l.
+Proof. intros. apply be_acc_nonneg; auto. lia. Qed.
+Lemma bytes_ok_sub : forall l a n, bytes_ok l -> bytes_ok (sub l a n).
+Proof. intros. unfold sub. apply bytes_ok_firstn. apply bytes_ok_skipn. auto. Qed.
+
+Lemma popcount16_from_nonneg : forall v n, 0 <= popcount16_from v n.
+Proof. induction n; cbn [popcount16_from]; [lia|]. destruct (testbit v (Z.of_nat n)); lia. Qed.
+Lemma popcount16_from_bit0 : forall v n, (0 < n)%nat -> testbit v 0 = true -> 1 <= popcount16_from v n.
+Proof.
+  induction n; intros Hn Hb; [lia|]. cbn [popcount16_from].
+  destruct n.
+  - cbn [Z.of_nat]. rewrite Hb. cbn. lia.
+  - pose proof (IHn ltac:(lia) Hb). destruct (testbit v (Z.of_nat (S n))); lia.
+Qed.
+
 Section HandlerProofs.
   Variable o_corr_f : Z -> Z -> Z -> Z -> Z -> Z -> Z -> Z -> rect4.
   Variable o_scale : Z -> Z -> Z -> Z.
@@ -307,6 +328,11 @@ Section HandlerProofs.
   Proof.
     intros size i H; split; [|reflexivity]. split; [exact I|split; [reflexivity|]]. cbn.
     destruct (0 <=? i) eqn:A; destruct (i <? size) eqn:B; cbn; try reflexivity; lia.
+  Qed.
+
+  Lemma Q_div : forall a b, b <> 0 -> Q (Div a b).
+  Proof.
+    intros a b H; split; [|reflexivity]. split; [exact I|split; [|reflexivity]]. cbn. lia.
   Qed.
 
   Lemma bound_ge_small : forall n, n <= c04_sizeof_screen -> n <= alloc_bound c.
@@ -347,7 +373,7 @@ Section HandlerProofs.
   Lemma ok_send_challenge : forall s, eff_ok Q (send_challenge s).
   Proof. intro s. unfold send_challenge. eo. Qed.
   Lemma ok_proto_version : forall s, eff_ok Q (proto_version c s).
-  Proof. intro s. unfold proto_version. eo. Qed.
+  Proof. intro s. unfold proto_version. eo. apply Q_index. vm_compute. split; [discriminate|reflexivity]. Qed.
   Lemma ok_security_type : forall s, eff_ok Q (security_type c s).
   Proof. intro s. unfold security_type. eo. Qed.
   Lemma ok_auth_msg : forall s, eff_ok Q (auth_msg o_pw s).
@@ -394,17 +420,23 @@ Section HandlerProofs.
   Lemma ok_ClientCutText : forall s, eff_ok Q (h_ClientCutText o_inflate c s).
   Proof.
     intro s. unfold h_ClientCutText. eo; try apply ok_ext_provide. szok.
-    match goal with Hlen : (?len >? c04_cut_text_limit) = false |- _ => remember len as L eqn:EL; clear EL end.
-    apply Q_alloc. unfold alloc_bound, msg_bound.
-    assert (1 <= c04_cut_text_limit <= c04_int_max) by (vm_compute; split; discriminate).
-    destruct (cf_ft c); destruct (L =? 0) eqn:?; lia.
+    - match goal with Hlen : (?len >? c04_cut_text_limit) = false |- _ => remember len as L eqn:EL; clear EL end.
+      apply Q_alloc. unfold alloc_bound, msg_bound.
+      assert (1 <= c04_cut_text_limit <= c04_int_max) by (vm_compute; split; discriminate).
+      destruct (cf_ft c); destruct (L =? 0) eqn:?; lia.
+    - apply Q_index. lia.
+    - apply Q_index.
+      match goal with Ht : testbit ?f 0 = true |- _ => pose proof (popcount16_from_bit0 f 16 ltac:(lia) Ht) as Hp end.
+      unfold popcount16 in *. lia.
   Qed.
 
   Lemma ok_FileTransfer : forall s, eff_ok Q (h_FileTransfer c s).
   Proof.
-    intro s. unfold h_FileTransfer. eo. szok.
-    apply Q_alloc. unfold alloc_bound, msg_bound.
-    match goal with H : negb (cf_ft c) = false |- _ => destruct (cf_ft c); [|discriminate H] end. lia.
+    intro s. unfold h_FileTransfer, ft_rest. eo. szok.
+    - apply Q_alloc. unfold alloc_bound, msg_bound.
+      match goal with H : negb (cf_ft c) = false |- _ => destruct (cf_ft c); [|discriminate H] end. lia.
+    - apply Q_index.
+      match goal with H : bytes_ok ?m |- context [be (sub ?m 7 4)] => pose proof (be_nonneg _ (bytes_ok_sub m 7 4 H)) end. lia.
   Qed.
 
   Lemma ok_index_all : forall n size k, (Z.of_nat n <= size) -> eff_ok Q k -> eff_ok Q (index_all size n k).
@@ -435,7 +467,11 @@ Section HandlerProofs.
     - apply eo_wr; intros ok. destruct ok; [apply IH|]. apply eo_em; [apply Q_close|apply IH].
     - apply eo_wr; intros ok. destruct ok; [apply IH|]. unfold closeP. eo.
     - apply eo_em; [|apply IH]. apply Q_index.
-      match goal with H : (_ && _) = true |- _ => apply andb_prop in H; destruct H end. lia.
+      match goal with H : (_ && _) = true |- _ => apply andb_prop in H; destruct H end.
+      (* the quality range of rfbproto.h and the length of tight2turbo_qual[], both regenerated *)
+      assert (Hq0 : c04_e_QualityLevel0 mod 16 = 0 /\ c04_e_QualityLevel9 - c04_e_QualityLevel0 < Z.of_nat (length c04_turbo_qual) <= 16)
+        by (vm_compute; repeat split; congruence).
+      destruct Hq0 as (Hq0 & Hq1 & Hq2). lia.
   Qed.
 
   Lemma ok_SetEncodings : forall s, eff_ok Q (h_SetEncodings c s).
@@ -451,8 +487,10 @@ Section HandlerProofs.
   Lemma ok_SetScale : forall palm s, eff_ok Q (h_SetScale c palm s).
   Proof.
     intros palm s. unfold h_SetScale. eo. szok.
-    apply ok_do_scale.
-    match goal with H : bytes_ok ?m |- context [nthb ?m 0] => pose proof (nthb_range m 0 H) end. lia.
+    - apply Q_div. lia.
+    - apply Q_div. lia.
+    - apply ok_do_scale.
+      match goal with H : bytes_ok ?m |- context [nthb ?m 0] => pose proof (nthb_range m 0 H) end. lia.
   Qed.
 
   Lemma ok_normal_msg : forall s, eff_ok Q (normal_msg o_corr_f o_scale o_inflate c s).
@@ -902,7 +940,7 @@ Lemma o_corr_pos : forall f fw fh tw th x y w h,
   fpu_ok f ->
   0 < tw <= 65535 -> 0 < th <= 65535 ->
   0 <= x -> 0 < w -> x + w <= fw -> 0 <= y -> 0 < h -> y + h <= fh ->
-  let '(x', y', w', h') := o_corr f fw fh tw th x y w h in 1 <= w' /\ 1 <= h'.
+  let '(x', y', w', h') := o_corr f fw fh tw th x y w h in 1 <= w' <= tw /\ 1 <= h' <= th.
 Proof.
   intros f fw fh tw th x y w h Hf Htw Hth Hx Hw Hxw Hy Hh Hyh.
   specialize (Hf fw fh tw th x y w h Htw Hth Hx Hw Hxw Hy Hh Hyh).
@@ -938,54 +976,91 @@ Section UpdateProofs.
   Lemma q_safe_div : forall a b, b <> 0 -> q_safe (Div a b).
   Proof. intros a b H. split; [|reflexivity]. cbn. lia. Qed.
 
+  (* one rectangle: any non-empty rectangle inside the screen *)
+  Lemma rect_prog_safe : forall B s q (k : option Z -> prog B),
+    inv c s -> rect_in (cf_w c) (cf_h c) q ->
+    (forall n, eff_ok q_safe (k n)) -> eff_ok q_safe (rect_prog o_corr_f c s q k).
+  Proof.
+    intros B s [[[x y] w] h] k (Hd & Hl & Hq) Hrect Hk. cbn in Hrect. unfold rect_prog.
+    destruct Hd as [[D1 D2] [D3 D4]]. cbn [fst snd] in *.
+    assert (Hpos : let '(x', y', w', h') :=
+                     (if scaled c s then o_corr o_corr_f (cf_w c) (cf_h c) (s_sw s) (s_sh s) x y w h else (x, y, w, h))
+                   in 1 <= w' <= s_sw s /\ 1 <= h' <= s_sh s).
+    { destruct (scaled c s) eqn:Esc.
+      - apply o_corr_pos; auto; lia.
+      - unfold scaled in Esc. apply negb_false_iff in Esc. apply andb_prop in Esc. destruct Esc.
+        assert (s_sw s = cf_w c) by lia. assert (s_sh s = cf_h c) by lia. lia. }
+    destruct (if scaled c s then o_corr o_corr_f (cf_w c) (cf_h c) (s_sw s) (s_sh s) x y w h else (x, y, w, h))
+      as [[[x' y'] w'] h'].
+    destruct Hpos as [Hw' Hh'].
+    assert (Hcm : c04_corre_max <> 0) by (vm_compute; discriminate).
+    assert (Hum : 0 <= c04_ultra_max_rect) by (vm_compute; discriminate).
+    assert (Hzm : 0 <= c04_zlib_max_rect) by (vm_compute; discriminate).
+    assert (Harea : 1 <= w' * h' <= s_sw s * s_sh s) by nia.
+    repeat match goal with |- eff_ok _ (if ?b then _ else _) => destruct b end.
+    - constructor; [apply q_safe_index; lia|]. constructor; [apply q_safe_index; lia|apply Hk].
+    - constructor; [apply q_safe_div; auto|]. constructor; [apply q_safe_div; auto|].
+      constructor; [apply q_safe_index; lia|]. constructor; [apply q_safe_index; lia|apply Hk].
+    - pose proof (max_size_quot c04_ultra_max_rect w' ltac:(lia) Hum).
+      constructor; [apply q_safe_div; lia|]. constructor; [apply q_safe_div; lia|]. apply Hk.
+    - pose proof (max_size_quot c04_zlib_max_rect w' ltac:(lia) Hzm).
+      constructor; [apply q_safe_div; lia|]. constructor; [apply q_safe_div; lia|]. apply Hk.
+    - apply Hk.
+    - apply Hk.
+  Qed.
+
+  Lemma rects_prog_safe : forall s l,
+    inv c s -> Forall (rect_in (cf_w c) (cf_h c)) l -> eff_ok q_safe (rects_prog o_corr_f c s l).
+  Proof.
+    intros s l Hi Hl. induction Hl as [|q t Hq Ht IH]; cbn [rects_prog]; [constructor|].
+    apply rect_prog_safe; auto.
+  Qed.
+
   Lemma update_prog_safe : forall s, inv c s -> eff_ok q_safe (update_prog o_corr_f c s).
   Proof.
-    intros s (Hd & Hl & Hq). unfold update_prog.
+    intros s Hi. pose proof Hi as (Hd & Hl & Hq). unfold update_prog.
     destruct (s_closed s || negb (s_state s =? c04_st_Normal)); [constructor|].
     destruct (s_req s) as [|[[[x y] w] h] rest] eqn:Ereq; [constructor|].
     destruct rest; [|constructor].
-    inversion Hq as [|q l Hrect _]; subst. cbn in Hrect.
+    inversion Hq as [|q l Hrect _]; subst.
     destruct ((w <? 0) || (h <=? 0)); [constructor|].
     destruct ((w =? 0) && negb ((0 <? x) && (x <? cf_w c))); [constructor|].
     destruct (s_newfb s && s_pending s).
     { constructor. intro ok. destruct ok; [constructor|]. constructor; [split; reflexivity|constructor]. }
-    assert (Hpos : let '(x', y', w', h') :=
-                     (if scaled c s then o_corr o_corr_f (cf_w c) (cf_h c) (s_sw s) (s_sh s) x y w h else (x, y, w, h))
-                   in 1 <= w' /\ 1 <= h').
-    { destruct (scaled c s).
-      - destruct Hd as [[A1 A2] [A3 A4]]. cbn [fst snd] in *.
-        apply o_corr_pos; auto; lia.
-      - lia. }
-    destruct (if scaled c s then o_corr o_corr_f (cf_w c) (cf_h c) (s_sw s) (s_sh s) x y w h else (x, y, w, h))
-      as [[[x' y'] w'] h'].
-    destruct Hpos as [Hw' Hh'].
-    assert (Hfin : forall n extra s', eff_ok q_safe
-              (Wr 4 (fun ok : bool => if ok then Ret (s', UCount (u16 (n + extra)))
-                                      else Em Close (Ret (set_closed s', UNone))))).
-    { intros. constructor. intro ok. destruct ok; [constructor|]. constructor; [split; reflexivity|constructor]. }
-    assert (Hcm : c04_corre_max <> 0) by (vm_compute; discriminate).
-    assert (Hum : 0 <= c04_ultra_max_rect) by (vm_compute; discriminate).
-    assert (Hzm : 0 <= c04_zlib_max_rect) by (vm_compute; discriminate).
-    repeat match goal with |- eff_ok _ (if ?b then _ else _) => destruct b end.
-    - constructor; [apply q_safe_index; destruct Hd as [[? ?] [? ?]]; cbn [fst snd] in *; nia|apply Hfin].
-    - constructor; [apply q_safe_index; destruct Hd as [[? ?] [? ?]]; cbn [fst snd] in *; nia|].
-      constructor; [apply q_safe_div; auto|]. constructor; [apply q_safe_div; auto|]. apply Hfin.
-    - pose proof (max_size_quot c04_ultra_max_rect w' Hw' Hum).
-      constructor; [apply q_safe_div; lia|]. constructor; [apply q_safe_div; lia|]. apply Hfin.
-    - pose proof (max_size_quot c04_zlib_max_rect w' Hw' Hzm).
-      constructor; [apply q_safe_div; lia|]. constructor; [apply q_safe_div; lia|]. apply Hfin.
-    - constructor.
-    - apply Hfin.
+    apply rect_prog_safe; auto.
+    intros [n|]; [|constructor].
+    destruct (s_odd s); [constructor|].
+    constructor. intro ok. destruct ok; [constructor|]. constructor; [split; reflexivity|constructor].
+  Qed.
+
+  Lemma run_safe : forall A (p : prog A) r v r' eff,
+    eff_ok q_safe p -> reader_bytes_ok r -> run c p r = (v, r', eff) -> Forall q_safe eff.
+  Proof.
+    intros A p r v r' eff Hok Hr H.
+    refine (proj1 (run_eff_ok q_safe q_safe (fun e He => He) _ _ _ A c p r v r' eff Hok Hr H)).
+    - intro t; split; reflexivity.
+    - split; reflexivity.
+    - intro n; split; reflexivity.
   Qed.
 
   Lemma update_safe : forall s r v r' eff,
     inv c s -> reader_bytes_ok r -> update o_corr_f c s r = (v, r', eff) -> Forall q_safe eff.
+  Proof. intros s r v r' eff Hi Hr H. exact (run_safe _ _ r v r' eff (update_prog_safe s Hi) Hr H). Qed.
+
+  Lemma update_all_safe : forall s r v r' eff,
+    inv c s -> reader_bytes_ok r -> update_all o_corr_f c s r = (v, r', eff) -> Forall q_safe eff.
   Proof.
-    intros s r v r' eff Hi Hr H. unfold update in H.
-    eapply (run_eff_ok q_safe q_safe); eauto using update_prog_safe.
-    - intro t; split; reflexivity.
-    - split; reflexivity.
-    - intro n; split; reflexivity.
+    intros s r v r' eff Hi Hr H.
+    exact (run_safe _ _ r v r' eff (rects_prog_safe s (s_req s) Hi (proj2 (proj2 Hi))) Hr H).
+  Qed.
+
+  (* any rectangle whatsoever of any decomposition of the update region *)
+  Lemma any_rect_safe : forall s q r v r' eff,
+    inv c s -> rect_in (cf_w c) (cf_h c) q -> reader_bytes_ok r ->
+    run c (rect_prog o_corr_f c s q (fun _ => Ret tt)) r = (v, r', eff) -> Forall q_safe eff.
+  Proof.
+    intros s q r v r' eff Hi Hq Hr H.
+    exact (run_safe _ _ r v r' eff (rect_prog_safe unit s q _ Hi Hq (fun _ => eo_ret _ tt)) Hr H).
   Qed.
 End UpdateProofs.
 
@@ -1111,12 +1186,16 @@ Definition corr_q (fw fh tw th x y w h : Z) : rect4 :=
   else (x * tw / fw, y * th / fh,
         (w * tw + (x * tw) mod fw + fw - 1) / fw, (h * th + (y * th) mod fh + fh - 1) / fh).
 Definition scale_q (from to v : Z) : Z := if from =? 0 then 0 else v * to / from.
-Definition inflate_none (flags : Z) (d : list Z) : zres := ZUnknown.
+Definition inflate_none (flags : Z) (d : list Z) : zres := ZBad.
 Definition pw_none (l : list Z) : bool := false.
 
 Definition cfg_w (W H : Z) (fixscale fixpeek : bool) : cfg :=
   mkCfg W H 32 false false false false 0 false false 5 fixscale fixpeek false.
 Definition cfg_fixed (W H : Z) : cfg := mkCfg W H 32 false false false false 0 false false 5 true true true.
+Lemma cfg_ok_w48 : forall fs fp, cfg_ok (cfg_w 4 8 fs fp).
+Proof. intros. unfold cfg_ok. cbn. repeat split; try lia; try (vm_compute; congruence); right; reflexivity. Qed.
+Lemma cfg_ok_fixed48 : cfg_ok (cfg_fixed 4 8).
+Proof. unfold cfg_ok. cbn. repeat split; try lia; try (vm_compute; congruence); right; reflexivity. Qed.
 
 (* connect, process every message the peer sends, then let the application modify the screen:
    effects of the update *)
@@ -1266,7 +1345,7 @@ Lemma no_div_zero_refuted :
                     session c evs = Some eff /\ exists a, In (Div a 0) eff.
 Proof.
   exists (cfg_w 4 8 false false), f2_stream, [Div 32768 0].
-  split; [repeat split; vm_compute; congruence|].
+  split; [apply cfg_ok_w48|].
   split; [reflexivity|]. split; [cbn; repeat split; discriminate|].
   split; [cbn; unfold bytes_ok; repeat split; repeat constructor; lia|].
   split; [exact f2_witness|]. exists 32768. left; reflexivity.
@@ -1277,7 +1356,7 @@ Lemma index_safe_update_refuted :
                     session c evs = Some eff /\ In (Index 0 0) eff.
 Proof.
   exists (cfg_w 4 8 false false), f2_stream_rre, [Index 0 0].
-  split; [repeat split; vm_compute; congruence|].
+  split; [apply cfg_ok_w48|].
   split; [reflexivity|]. split; [cbn; repeat split; discriminate|].
   split; [exact f2_witness_rre|]. left; reflexivity.
 Qed.
@@ -1288,7 +1367,7 @@ Lemma total_wait_refuted :
     v = Some s /\ sum_wait eff > 6 * timeout_of c.
 Proof.
   exists (cfg_w 4 8 false false), (set_state (init_state (cfg_w 4 8 false false)) c04_st_Normal), drip_reader.
-  split; [repeat split; vm_compute; congruence|].
+  split; [apply cfg_ok_w48|].
   split; [cbn; repeat split; try discriminate; lia|].
   split; [split; cbn; unfold bytes_ok; repeat split; repeat constructor; lia|].
   split; [split; cbn; auto|].
@@ -1310,7 +1389,7 @@ Lemma no_div_zero_refuted_fur :
                     session c evs = Some eff /\ exists a, In (Div a 0) eff.
 Proof.
   exists (cfg_w 4 8 true true), f22_stream, [Div 32768 0].
-  split; [repeat split; vm_compute; congruence|].
+  split; [apply cfg_ok_w48|].
   split; [reflexivity|]. split; [cbn; repeat split; discriminate|].
   split; [cbn; unfold bytes_ok; repeat split; repeat constructor; lia|].
   split; [vm_compute; reflexivity|]. exists 32768. left; reflexivity.
@@ -1565,4 +1644,76 @@ Proof.
     inversion H; subst; cbn [app];
     repeat first [ exact Hmap | exact Hst | apply Forall_app; split
                  | apply Forall_cons; [exact I|] | apply Forall_nil ].
+Qed.
+
+(* ------------------------------------------------------------------------------------------ *)
+(** * fpu_ok is satisfiable by the exact-arithmetic correction *)
+Lemma fpu_ok_corr_q : fpu_ok corr_q.
+Proof.
+  unfold fpu_ok, corr_q. intros fw fh tw th x y w h Htw Hth Hx Hw Hxw Hy Hh Hyh.
+  assert (Hfw : 0 < fw) by lia. assert (Hfh : 0 < fh) by lia.
+  destruct ((fw =? 0) || (fh =? 0)) eqn:E; [lia|].
+  (* x direction *)
+  pose proof (Z.div_mod (x * tw) fw ltac:(lia)) as Dx. pose proof (Z.mod_pos_bound (x * tw) fw Hfw) as Mx.
+  set (qx := x * tw / fw) in *. set (rx := (x * tw) mod fw) in *.
+  assert (Hqx : 0 <= qx < tw) by (split; nia).
+  assert (Hwx : 0 <= (w * tw + rx + fw - 1) / fw <= 65536).
+  { split; [apply Z.div_pos; nia|].
+    assert ((w * tw + rx + fw - 1) / fw <= tw - qx).
+    { apply Z.lt_succ_r. apply Z.div_lt_upper_bound; [lia|]. nia. }
+    lia. }
+  (* y direction *)
+  pose proof (Z.div_mod (y * th) fh ltac:(lia)) as Dy. pose proof (Z.mod_pos_bound (y * th) fh Hfh) as My.
+  set (qy := y * th / fh) in *. set (ry := (y * th) mod fh) in *.
+  assert (Hqy : 0 <= qy < th) by (split; nia).
+  assert (Hhy : 0 <= (h * th + ry + fh - 1) / fh <= 65536).
+  { split; [apply Z.div_pos; nia|].
+    assert ((h * th + ry + fh - 1) / fh <= th - qy).
+    { apply Z.lt_succ_r. apply Z.div_lt_upper_bound; [lia|]. nia. }
+    lia. }
+  repeat split; lia.
+Qed.
+
+(* ------------------------------------------------------------------------------------------ *)
+(** * Second refutation of "one call returns within the client-wait time" (write side): a failed VNC
+      authentication of a 3.8 client that stopped reading costs two full write time-outs (the result word,
+      then the reason string), 2 x 20000 ms. *)
+Definition cfg_pw48 : cfg := mkCfg 4 8 32 true false false false 0 false false 5 true true true.
+Definition stalled_auth_reader : reader :=
+  mkReader [0; 1; 2; 3; 4; 5; 6; 7; 8; 9; 10; 11; 12; 13; 14; 15] [] false false true false.
+Definition auth_state : cstate := set_minor (set_state (init_state cfg_pw48) c04_st_Authentication) 8.
+
+Lemma stalled_auth_witness :
+  let '(v, _, eff) := process_message corr_q scale_q inflate_none pw_none cfg_pw48 auth_state stalled_auth_reader in
+  sum_wait eff = 40000 /\ timeout_of cfg_pw48 = 20000 /\ In Close eff /\
+  Forall (wait_le (Z.max (timeout_of cfg_pw48) c04_write_slice_ms)) eff.
+Proof. vm_compute. repeat split; try reflexivity; try (right; right; right; right; right; right; right; right; right; left; reflexivity);
+       repeat constructor; try discriminate. Qed.
+
+(* sessions, every rectangle requested since the last update (any number of requests) *)
+Lemma no_div_zero_sessions_all : forall o_corr_f o_scale o_inflate o_pw c fuel r obs s' r' ok v r'' eff,
+  cfg_ok c -> fpu_ok o_corr_f -> repaired c -> reader_bytes_ok r ->
+  run_conn o_corr_f o_scale o_inflate o_pw c fuel (init_state c) r = (obs, Some s', r', ok) ->
+  update_all o_corr_f c s' r' = (v, r'', eff) ->
+  Forall q_safe eff.
+Proof.
+  intros o_corr_f o_scale o_inflate o_pw c fuel r obs s' r' ok v r'' eff Hc Hfpu (Hs & _ & Hf) Hr Hrun Hup.
+  destruct (scaled_inv_fixed o_corr_f o_scale o_inflate o_pw c fuel r obs s' r' ok Hc Hs Hf Hr Hrun) as [Hi Hr'].
+  destruct Hc as (_ & _ & _ & _ & HW & HH & _).
+  exact (update_all_safe o_corr_f c HW HH Hfpu s' r' v r'' eff Hi Hr' Hup).
+Qed.
+
+Lemma total_wait_refuted_stalled_auth :
+  exists c s r, cfg_ok c /\ reader_bytes_ok r /\ r_stalled r = true /\
+    let '(_, _, eff) := process_message corr_q scale_q inflate_none pw_none c s r in
+    sum_wait eff = 2 * timeout_of c /\
+    Forall (wait_le (Z.max (timeout_of c) c04_write_slice_ms)) eff.
+Proof.
+  exists cfg_pw48, auth_state, stalled_auth_reader.
+  split; [unfold cfg_ok; cbn; repeat split; try lia; try (vm_compute; congruence); right; reflexivity|].
+  split; [split; cbn; unfold bytes_ok; repeat constructor; lia|].
+  split; [reflexivity|].
+  pose proof stalled_auth_witness as H. cbv zeta in H.
+  destruct (process_message corr_q scale_q inflate_none pw_none cfg_pw48 auth_state stalled_auth_reader) as [[v r'] eff].
+  destruct H as (Hs & Ht & _ & Hf). split; [rewrite Hs, Ht; reflexivity|exact Hf].
 Qed.
